@@ -57,6 +57,13 @@ impl RespParser {
             return Ok(None);
         }
         
+        // A raw PING of which only the beginning has arrived is not a protocol error yet:
+        // wait for the rest (the answer must not depend on how the bytes were split)
+        let available = &self.buffer[self.position..];
+        if available.len() < 4 && b"PING".starts_with(available) {
+            return Ok(None);
+        }
+        
         // Special handling for raw protocol (e.g., redis-benchmark sometimes sends raw "PING")
         if self.position + 4 <= self.buffer.len() && 
            &self.buffer[self.position..self.position+4] == b"PING" {
